@@ -1021,6 +1021,9 @@ func (x *Exec) applyContractSig(st *State, call *ast.CallExpr, sig *types.Signat
 					cenv.names[k] = v // the callee's parameter names denote the actual arguments
 				}
 				cenv.names["arg_"+k] = v // arg_<param>: the actual argument, also when a local has the parameter's name
+				if rv, ok := x.curRaw[k]; ok && rv.T != v.T {
+					cenv.names["raw_"+k] = rv // raw_<param>: the argument before its conversion to the (interface) parameter type
+				}
 			}
 			for j, cj := range x.prog.expandConj(ca.Expr, 0) {
 				cls := fmt.Sprintf("callsite@%s.%d", c.Local, i+1)
